@@ -66,6 +66,7 @@ def run(ctx):
     # machine proof of the border invariant the reviewed `why` entries of the lexical slice sites rest on
     import blen
     blen.rule_B_LEN(ctx)
+    blen.rule_L_ONCE(ctx)
     ctx.undecided = ["bounds obligations of the lexical segmenters that rest on the reviewed invariant `a returned border never exceeds the "
                      "slice it was computed on` (recorded per site in the table) rather than on a machine proof", "stack depth"]
     ctx.assumptions = ["lengths <= isize::MAX", "iterators driving `for` loops are finite", "external callees not on the may-panic list are total",
